@@ -93,29 +93,37 @@ def flow_spec(max_T=2.0, allow_trace=True, rate_exp=(-16.0, 3.0)):
             "L1": gen.velgrad_spec(False),
             "L2": gen.velgrad_spec(False),
             "amp": st.floats(0.25, 1.5),
-            "a1": st.one_of(st.just(0.0), st.floats(0.0, 0.8)),
-            "a2": st.one_of(st.just(0.0), st.floats(0.0, 0.8)),
+            # amplitudes are 0 or >= 1e-3 and coordinates are rounded to 1e-3, so that a
+            # strain rate is either exactly zero or far from the denormal range
+            "a1": st.one_of(st.just(0.0), st.floats(1e-3, 0.8)),
+            "a2": st.one_of(st.just(0.0), st.floats(1e-3, 0.8)),
             "om": st.floats(0.5, 6.0),
-            "c": st.lists(st.floats(-1.0, 1.0), min_size=3, max_size=3),
+            "c": st.lists(st.floats(-1.0, 1.0).map(lambda v: round(v, 3)), min_size=3, max_size=3),
             "path": st.one_of(
-                st.fixed_dictionaries({"k": st.just("fixed"), "x0": st.lists(st.floats(-2, 2), min_size=3, max_size=3)}),
+                st.fixed_dictionaries({"k": st.just("fixed"), "x0": st.lists(st.floats(-2, 2).map(lambda v: round(v, 3)), min_size=3, max_size=3)}),
                 st.fixed_dictionaries(
                     {
                         "k": st.just("linear"),
-                        "x0": st.lists(st.floats(-2, 2), min_size=3, max_size=3),
-                        "v": st.lists(st.floats(-1, 1), min_size=3, max_size=3),
+                        "x0": st.lists(st.floats(-2, 2).map(lambda v: round(v, 3)), min_size=3, max_size=3),
+                        "v": st.lists(st.floats(-1, 1).map(lambda v: round(v, 3)), min_size=3, max_size=3),
                     }
                 ),
                 st.fixed_dictionaries(
                     {
                         "k": st.just("circular"),
-                        "x0": st.lists(st.floats(-2, 2), min_size=3, max_size=3),
+                        "x0": st.lists(st.floats(-2, 2).map(lambda v: round(v, 3)), min_size=3, max_size=3),
                         "r": st.floats(0.1, 2.0),
                     }
                 ),
             ),
             "T": st.floats(0.05, max_T),
-            "u": st.floats(*rate_exp),  # log10 of the strain-rate scale s
+            # log10 of the strain-rate scale s; the ends of the documented range are over-sampled
+            "u": st.one_of(
+                st.floats(*rate_exp),
+                st.sampled_from([rate_exp[0], rate_exp[0] + 0.5, rate_exp[0] + 1.0, rate_exp[1], 0.0, -4.0]),
+                st.floats(rate_exp[0], rate_exp[0] + 1.0),
+                st.floats(rate_exp[1] - 1.0, rate_exp[1]),
+            ),
             "t0": st.sampled_from([0.0, 1.0, -3.0, 1e3]),  # start time in units of 1/s
         }
     )
@@ -175,7 +183,8 @@ class Flow:
     def __init__(self, fs, rate_mult=1.0, frame=None):
         L0 = gen.velgrad(fs["L0"])
         L0n, _, s0 = gen.normalise_velgrad(L0)
-        self.L0 = (L0n if L0n is not None else np.zeros((3, 3))) * fs["amp"]
+        # a strain-free L0 (pure spin) is kept as it is: rigid rotation is a legal history
+        self.L0 = (L0n if L0n is not None else L0) * fs["amp"]
         L1n, _, _ = gen.normalise_velgrad(gen.velgrad(fs["L1"]))
         L2n, _, _ = gen.normalise_velgrad(gen.velgrad(fs["L2"]))
         self.L1 = (L1n if L1n is not None else np.zeros((3, 3))) * fs["amp"] * fs["a1"]
